@@ -402,6 +402,7 @@ pdgssvx(int_t nprocs, superlumt_options_t *superlumt_options, SuperMatrix *A,
     char      norm[1];
     trans_t   trant;
     int_t     j, info1;
+    int_t     lu_ok = 1; /* L and U hold a factorization (possibly singular) */
     int i;
     double amax, anorm, bignum, smlnum, colcnd, rowcnd, rcmax, rcmin;
     int_t       n, relax, panel_size;
@@ -606,6 +607,10 @@ pdgssvx(int_t nprocs, superlumt_options_t *superlumt_options, SuperMatrix *A,
 	    /* Compute the reciprocal pivot growth factor of the leading
 	       rank-deficient *info columns of A. */
 	    *recip_pivot_growth = dPivotGrowth(*info, AA, perm_c, L, U);
+	} else {
+	    /* Memory allocation failed during the factorization:
+	       L and U were not produced. */
+	    lu_ok = 0;
 	}
     } else {
 
@@ -672,7 +677,8 @@ pdgssvx(int_t nprocs, superlumt_options_t *superlumt_options, SuperMatrix *A,
 	
     }
 
-    superlu_dQuerySpace(nprocs, L, U, panel_size, superlu_memusage);
+    if ( lu_ok )
+	superlu_dQuerySpace(nprocs, L, U, panel_size, superlu_memusage);
 
     /* ------------------------------------------------------------
        Deallocate storage after factorization.
